@@ -1228,7 +1228,7 @@ fn gen_lat(r: &mut Rng) -> Lat {
     if r.chance(3, 5) {
         // exact regime for the area formula
         let offs = [0i64, 0, 0, 1000, -1000, 30_000_000, -17];
-        Lat { ox: *r.pick(&offs), oy: *r.pick(&offs), sh: if r.chance(1, 2) { 0 } else { r.range(-30, 30) as i32 } }
+        Lat { ox: *r.pick(&offs), oy: *r.pick(&offs), sh: if r.chance(1, 2) { 0 } else { r.range(-30, 30) as i32 }, shear: 0 }
     } else {
         Lat::random(r)
     }
